@@ -58,6 +58,14 @@ func (e EStr) String() string { return "E:" + string(e) }
 
 type Item struct{ N int }
 
+// Opaque has no member another package can touch (like time.Time).
+type Opaque struct {
+	sec  int64
+	nsec int
+}
+
+func NewOpaque(s int64) Opaque { return Opaque{sec: s} }
+
 // Inner has an exported and an unexported member.
 type Inner struct {
 	X int
